@@ -19,7 +19,8 @@ EXPLANATION = (
     "its type. Not decided: the run-time value of every literal in every program."
     " ADDED LATER: R1-ESCAPE-STATE-FRESH: a buffer whose length decides when an escape is complete is created inside the arm that decodes it; R2-NO-NARROWING-CAST: no 128-bit literal value is narrowed with `as`; R3 also: -2^127 (decimal or suffixed) folds into i128::MIN; R7 the bytes of a string literal reach the generator's byte-preserving consumers only."
     " ROUNDS 5-6: R9-RADIX-NEEDS-DIGIT: both radix arms of the first-generation scanner push their letter into the suffix when no digit follows (E141)."
-    " ROUND 8: R10-FORMAT-SPLICE: is_snprintf_safe folded over all 256 bytes is false for `%`, every append of non-literal bytes to the snprintf template is guarded by all(is_snprintf_safe), and add_specifier is only handed literals that start with `%`.")
+    " ROUND 8: R10-FORMAT-SPLICE: is_snprintf_safe folded over all 256 bytes is false for `%`, every append of non-literal bytes to the snprintf template is guarded by all(is_snprintf_safe), and add_specifier is only handed literals that start with `%`."
+    " ROUND 9: R1-UNICODE-ESCAPE-UTF8: what the `u` arm of the escape decoder appends to the literal's bytes comes out of char::encode_utf8.")
 
 REF_ESC = {110, 114, 116, 92, 39, 34, 48, 120, 117}
 REF_SUFFIXES = c14.REF_SUFFIXES
